@@ -156,6 +156,7 @@ var upgrader = websocket.Upgrader{
 }
 
 func (q *QueryRangeController) Tail(w http.ResponseWriter, r *http.Request) {
+	defer tamePanic(w, r)
 	watchCtx, cancel := context.WithCancel(r.Context())
 	defer cancel()
 	internalCtx, err := runPreWSRequestPlugins(watchCtx, r)
